@@ -736,6 +736,7 @@ Record state := {
   s_rbuf : list srow;            (* volatile: rows re-buffered by WAL replay (not covered by any WAL entry) *)
   s_sigs : list (dir * signature);   (* volatile: column signature of every non-empty buffer *)
   s_repl : bool;                 (* a replica is attached to the replication hook *)
+  s_rot : bool;                  (* MaxSizeBytes is tiny: the writer rotates to a fresh file after every entry *)
   s_replica : list srow;         (* rows the replica has been handed *)
   s_due : list srow;             (* ghost: rows of acknowledged writes whose entries reached a file *)
   s_pend : list srow             (* ghost: rows of acknowledged writes still in the writer queue *)
@@ -743,10 +744,10 @@ Record state := {
 
 Definition st0 : state :=
   {| s_files := []; s_store := []; s_run := false; s_act := []; s_gate := false; s_chan := [];
-     s_buf := []; s_rbuf := []; s_sigs := []; s_repl := false; s_replica := []; s_due := []; s_pend := [] |}.
+     s_buf := []; s_rbuf := []; s_sigs := []; s_repl := false; s_rot := false; s_replica := []; s_due := []; s_pend := [] |}.
 
 Inductive event :=
-| EStart (hold repl : bool)
+| EStart (hold repl rot : bool)     (* rot: size-triggered rotation after every entry (tiny MaxSizeBytes) *)
 | EWrite (now : Z) (ws : list bwrite) (tail_ok : bool)
       (* one request = the buffer writes its front end issues, in order; tail_ok = false: after them the
          buffer refuses a further element, so the request is answered with an error *)
@@ -756,18 +757,18 @@ Inductive event :=
 | ECrash.
 
 Definition set_files (s : state) f := {| s_files := f; s_store := s_store s; s_run := s_run s; s_act := s_act s;
-  s_gate := s_gate s; s_chan := s_chan s; s_buf := s_buf s; s_rbuf := s_rbuf s; s_sigs := s_sigs s; s_repl := s_repl s;
+  s_gate := s_gate s; s_chan := s_chan s; s_buf := s_buf s; s_rbuf := s_rbuf s; s_sigs := s_sigs s; s_repl := s_repl s; s_rot := s_rot s;
   s_replica := s_replica s; s_due := s_due s; s_pend := s_pend s |}.
 
 (* the three buffer components at once *)
 Definition set_buffers (s : state) store buf rbuf sigs := {| s_files := s_files s; s_store := store; s_run := s_run s;
   s_act := s_act s; s_gate := s_gate s; s_chan := s_chan s; s_buf := buf; s_rbuf := rbuf; s_sigs := sigs;
-  s_repl := s_repl s; s_replica := s_replica s; s_due := s_due s; s_pend := s_pend s |}.
+  s_repl := s_repl s; s_rot := s_rot s; s_replica := s_replica s; s_due := s_due s; s_pend := s_pend s |}.
 
 Definition crash (s : state) : state :=
   if s_run s then
     {| s_files := s_files s ++ [s_act s]; s_store := s_store s; s_run := false; s_act := []; s_gate := false;
-       s_chan := []; s_buf := []; s_rbuf := []; s_sigs := []; s_repl := false; s_replica := s_replica s;
+       s_chan := []; s_buf := []; s_rbuf := []; s_sigs := []; s_repl := false; s_rot := false; s_replica := s_replica s;
        s_due := s_due s; s_pend := [] |}
   else s.
 
@@ -797,16 +798,28 @@ Definition buffer_add (s : state) (d : dir) (b : batch) (replayed : bool) : stat
 
 Definition batch_dir (db meas : bytes) : dir := (db, meas).
 
+(* the writer goroutine writes entries to the active file; with rotation it moves to a fresh
+   file after each of them (writeEntry: write, then rotate when currentSize >= MaxSizeBytes) - the
+   file rotated away from becomes an inactive file, nothing is lost or re-framed *)
+Fixpoint log_append (rot : bool) (files : list (list entry)) (act : list entry) (es : list entry)
+  : list (list entry) * list entry :=
+  match es with
+  | [] => (files, act)
+  | e :: r => if rot then log_append rot (files ++ [act ++ [e]]) [] r
+              else log_append rot files (act ++ [e]) r
+  end.
+
 (* one buffer write of a live request: WAL append (+ replication hook), conversion, buffering *)
 Definition write1 (v : variant) (san : bytes -> bytes) (now : Z) (s : state) (w : bwrite) : state * option (list srow) :=
   match bw_parts san now w with
   | None => (s, None)
   | Some (db, meas, _) =>
   let es := wal_entries v w in
-  let s1 := {| s_files := s_files s; s_store := s_store s; s_run := s_run s;
-               s_act := if s_gate s then s_act s ++ es else s_act s;
+  let s1 := {| s_files := if s_gate s then fst (log_append (s_rot s) (s_files s) (s_act s) es) else s_files s;
+               s_store := s_store s; s_run := s_run s;
+               s_act := if s_gate s then snd (log_append (s_rot s) (s_files s) (s_act s) es) else s_act s;
                s_gate := s_gate s; s_chan := if s_gate s then s_chan s else s_chan s ++ es;
-               s_buf := s_buf s; s_rbuf := s_rbuf s; s_sigs := s_sigs s; s_repl := s_repl s;
+               s_buf := s_buf s; s_rbuf := s_rbuf s; s_sigs := s_sigs s; s_repl := s_repl s; s_rot := s_rot s;
                s_replica := if s_repl s then s_replica s ++ flat_map (apply_replicated v san now) es else s_replica s;
                s_due := s_due s; s_pend := s_pend s |} in
   match live_batch san now w with
@@ -828,14 +841,15 @@ Fixpoint write_all (v : variant) (san : bytes -> bytes) (now : Z) (s : state) (w
 
 Definition add_due (s : state) (rows : list srow) : state :=
   {| s_files := s_files s; s_store := s_store s; s_run := s_run s; s_act := s_act s; s_gate := s_gate s;
-     s_chan := s_chan s; s_buf := s_buf s; s_rbuf := s_rbuf s; s_sigs := s_sigs s; s_repl := s_repl s;
+     s_chan := s_chan s; s_buf := s_buf s; s_rbuf := s_rbuf s; s_sigs := s_sigs s; s_repl := s_repl s; s_rot := s_rot s;
      s_replica := s_replica s;
      s_due := if s_gate s then s_due s ++ rows else s_due s;
      s_pend := if s_gate s then s_pend s else s_pend s ++ rows |}.
 
 Definition persist (s : state) : state :=
-  {| s_files := s_files s; s_store := s_store s; s_run := s_run s; s_act := s_act s ++ s_chan s; s_gate := true;
-     s_chan := []; s_buf := s_buf s; s_rbuf := s_rbuf s; s_sigs := s_sigs s; s_repl := s_repl s;
+  {| s_files := fst (log_append (s_rot s) (s_files s) (s_act s) (s_chan s)); s_store := s_store s; s_run := s_run s;
+     s_act := snd (log_append (s_rot s) (s_files s) (s_act s) (s_chan s)); s_gate := true;
+     s_chan := []; s_buf := s_buf s; s_rbuf := s_rbuf s; s_sigs := s_sigs s; s_repl := s_repl s; s_rot := s_rot s;
      s_replica := s_replica s; s_due := s_due s ++ s_pend s; s_pend := [] |}.
 
 Definition batch_key (b : batch) : option dir :=
@@ -858,7 +872,9 @@ Fixpoint recover_files (v : variant) (san : bytes -> bytes) (now : Z) (s : state
       let '(bs, ok) := replay_file v san now f in
       let s1 := rebuffer s bs in
       if ok then
-        let s2 := if v_flush_before_delete v then flush s1 else s1 in
+        (* FlushReplayed is called for a file with at least one decoded entry *)
+        let s2 := if v_flush_before_delete v && existsb (fun e => match read_entry v e with Some _ => true | None => false end) f
+                  then flush s1 else s1 in
         match crash_at with
         | 1%nat => crash (set_files s2 (kept ++ f :: rest))          (* killed before this delete *)
         | _ => recover_files v san now s2 rest kept (Nat.pred crash_at)
@@ -868,10 +884,10 @@ Fixpoint recover_files (v : variant) (san : bytes -> bytes) (now : Z) (s : state
 
 Definition step (v : variant) (san : bytes -> bytes) (s : state) (e : event) : state :=
   match e with
-  | EStart hold repl =>
+  | EStart hold repl rot =>
       if s_run s then s else
       {| s_files := s_files s; s_store := s_store s; s_run := true; s_act := []; s_gate := negb hold; s_chan := [];
-         s_buf := []; s_rbuf := []; s_sigs := []; s_repl := repl; s_replica := s_replica s; s_due := s_due s; s_pend := [] |}
+         s_buf := []; s_rbuf := []; s_sigs := []; s_repl := repl; s_rot := rot; s_replica := s_replica s; s_due := s_due s; s_pend := [] |}
   | EWrite now ws tail_ok =>
       if s_run s then
         let '(s1, rows, ok) := write_all v san now s ws in
@@ -887,7 +903,7 @@ Definition run_events (v : variant) (san : bytes -> bytes) (s : state) (evs : li
   fold_left (step v san) evs s.
 
 (* what the next startup does: new process, recovery, flush *)
-Definition restart (now : Z) : list event := [ECrash; EStart false false; ERecover now 0; EFlush].
+Definition restart (now : Z) : list event := [ECrash; EStart false false false; ERecover now 0; EFlush].
 
 (* ------------------------------------------------------------------------------------ *)
 (* Layer A: front ends - database, measurements, permission checks, buffer writes          *)
@@ -1234,7 +1250,7 @@ Definition front (v : variant) (san : bytes -> bytes) (now : Z) (allow_all : boo
 Record orow := { o_dir : bytes; o_hour : Z; o_cells : row }.     (* one row read back from Parquet *)
 
 Inductive hevent :=
-| HStart (hold repl : bool)
+| HStart (hold repl rot : bool)
 | HWrite (now : Z) (allow_all : bool) (allow : list (bytes * bytes)) (rq : hreq)
          (status : Z) (checked : list bytes)     (* observed: status, "database/measurement" of every permission check *)
 | HPersist
@@ -1314,7 +1330,7 @@ Fixpoint run_case (v : variant) (s : state) (evs : list hevent) : state * bool :
   | e :: r =>
       let '(s1, ok1) :=
         match e with
-        | HStart hold repl => (step v idsan s (EStart hold repl), true)
+        | HStart hold repl rot => (step v idsan s (EStart hold repl rot), true)
         | HPersist => (step v idsan s EPersist, true)
         | HFlush => (step v idsan s EFlush, true)
         | HCrash => (step v idsan s ECrash, true)
@@ -1348,7 +1364,7 @@ Definition case_agrees (c : ccase) : bool :=
 
 Fixpoint ends_settled (evs : list hevent) : bool :=     (* ... start; recover (not killed); flush *)
   match evs with
-  | [HStart _ _; HRecover _ _ _ false; HFlush] => true
+  | [HStart _ _ _; HRecover _ _ _ false; HFlush] => true
   | _ :: r => ends_settled r
   | [] => false
   end.
